@@ -649,17 +649,35 @@ def random_doc(rng, sd, api=False, depth=2):
         tree += kids(depth)
     if rng.random() < 0.3:
         tree.append(("S", str(rng.randint(1, 9)), "SEC", kids(depth - 1)))
-    if rng.random() < 0.15:
-        tree.insert(0, ("B", sd.name, None, kids(1)))
+    if rng.random() < 0.25:
+        # a second block with the schema's name (both are validated; their [→TARGET] annotations share one dict key)
+        tree.insert(rng.choice([0, len(tree)]), ("B", sd.name, rng.choice([None, "SELF", "CUSTOM", "NOPE"]), kids(1)))
     return tree
 
 
+def meta_abuse(tree) -> bool:
+    """instances that use the reserved name META for an ordinary top-level block (after the META block,
+    with a target annotation, or empty): their canonical text is not re-readable (the emitter drops an
+    empty META and the next `META[→T]:` is then read as a malformed META block) — a reader/emitter
+    matter (C01), so text-level cases of this engine do not use them."""
+    for i, n in enumerate(tree):
+        if n[0] == "B" and n[1] == "META" and (i > 0 or n[2] is not None or not n[3]):
+            return True
+    return False
+
+
 def tree_text_safe(tree) -> bool:
+    if meta_abuse(tree):
+        return False
+    return _tree_text_safe(tree)
+
+
+def _tree_text_safe(tree) -> bool:
     for n in tree:
         if n[0] == "A":
             if not text_safe(n[2]):
                 return False
-        elif not tree_text_safe(n[3]):
+        elif not _tree_text_safe(n[3]):
             return False
     return True
 
@@ -854,9 +872,16 @@ def numeral_value(text: str):
     return -mant if m.group("sign") == "-" else mant
 
 
+def is_integer_numeral(text: str) -> bool:
+    t = to_ascii_digits(text.strip())
+    m = NUMERAL.match(t) if t is not None else None
+    return bool(m) and m.group("fp") is None and m.group("fp2") is None and m.group("ed") is None and "." not in t
+
+
 def denotes(text: str, number) -> bool:
-    """`number` is the finite Python number the numeral `text` denotes (for floats: the correctly
-    rounded double — all a Python float can hold)."""
+    """`number` is the finite Python number the numeral `text` denotes.  Lossless means: the number
+    equals the numeral's exact rational value; or — only for numerals written with a fraction or an
+    exponent, whose value a Python program can hold as a float only — it is the correctly rounded double."""
     if isinstance(number, bool) or not isinstance(number, (int, float)):
         return False
     q = numeral_value(text)
@@ -868,6 +893,10 @@ def denotes(text: str, number) -> bool:
         return q == number
     if not math.isfinite(number):
         return False
+    if Fraction(number) == q:
+        return True
+    if is_integer_numeral(text):
+        return False          # an integer numeral is representable exactly (as int): a rounded float loses digits
     try:
         rounded = q.numerator / q.denominator      # int / int is correctly rounded
     except OverflowError:
